@@ -133,6 +133,15 @@ Section Proofs.
   Lemma stage_fwd_incl f outs x : In x (stage_fwd f outs) -> In x outs.
   Proof. rewrite stage_fwd_prefix. apply firstn_incl. Qed.
 
+  (** only a publish-side fault lets anything through on a failed attempt *)
+  Lemma stage_fwd_nopub f outs : (forall j pn, f <> FPub j pn) ->
+    is_acked (stage_w f outs) = false -> stage_fwd f outs = [].
+  Proof.
+    rewrite stage_settle. unfold stage_fwd, stage_tr. rewrite rt_publishes. intros Hf.
+    destruct f as [| | |j pn], outs as [|x l]; simpl; try discriminate; try reflexivity;
+      exfalso; eapply Hf; reflexivity.
+  Qed.
+
   Lemma stage_clean_acked outs : stage_w FNone outs = Acked.
   Proof. now rewrite stage_settle. Qed.
   Lemma stage_nacked_faulty f outs : is_acked (stage_w f outs) = false -> fault_is_none f = false.
@@ -307,4 +316,230 @@ Section Proofs.
 
   Lemma acc_all st : Acc psucc st.
   Proof. eapply acc_measure; reflexivity. Qed.
+
+  (** ** invariants of every run *)
+  Lemma prun_inv (P : pstate -> Prop) :
+    (forall st l st', P st -> pstep k sc st l = Some st' -> P st') ->
+    forall ls st, P st -> P (prun k sc st ls).
+  Proof.
+    intros Hstep. induction ls as [|l ls IH]; intros st HP; simpl; [exact HP|].
+    destruct (pstep k sc st l) as [st'|] eqn:E; [|now apply IH]. apply IH. eapply Hstep; eassumption.
+  Qed.
+
+  Variable srcs : list M.
+
+  (** lineage: what can legitimately sit at topic t *)
+  Inductive derived : nat -> M -> Prop :=
+  | der_src x : In x srcs -> derived 0 x
+  | der_out t m o : derived t m -> In o (hf t m) -> derived (S t) o.
+
+  Lemma derived_desc t m : derived t m ->
+    forall n y, t + n = k -> In y (desc n t m) -> In y (expected_sink k srcs).
+  Proof.
+    induction 1 as [x Hx|t m o Hd IH Ho]; intros n y Hk Hy.
+    - simpl in Hk. subst n. unfold Model.expected_sink. apply in_flat_map. now exists x.
+    - apply (IH (S n) y); [lia|]. simpl. apply in_flat_map. now exists o.
+  Qed.
+  Lemma derived_final y : derived k y -> In y (expected_sink k srcs).
+  Proof. intros H. apply (derived_desc _ _ H 0 y); [lia|now left]. Qed.
+
+  Lemma expected_derived n : forall t m y, derived t m -> In y (desc n t m) -> derived (t + n) y.
+  Proof.
+    induction n as [|n IH]; intros t m y Hd Hy; simpl in Hy.
+    - destruct Hy as [<-|[]]. now rewrite Nat.add_0_r.
+    - apply in_flat_map in Hy as (o & Ho & Hy). replace (t + S n) with (S t + n) by lia.
+      eapply IH; [|exact Hy]. econstructor; eassumption.
+  Qed.
+  Lemma expected_sink_derived y : In y (expected_sink k srcs) -> derived k y.
+  Proof.
+    unfold Model.expected_sink. intros H. apply in_flat_map in H as (x & Hx & Hy).
+    apply (expected_derived k 0 x y); [now constructor|exact Hy].
+  Qed.
+
+  (** safety invariant: lineage of everything pending / arrived / logged, and every logged
+      delivery attempt passes the monitor *)
+  Definition delivery_good (d : delivery) : Prop :=
+    d_stage d < k /\ derived (d_stage d) (d_msg d)
+    /\ delivery_ok hf eqbM d = true
+    /\ d_final d = (if effective (d_fault d) (hf (d_stage d) (d_msg d)) then Nacked else Acked)
+    /\ d_fault d = sc (d_stage d) (d_call d)
+    /\ ((forall j pn, d_fault d <> FPub j pn) -> is_acked (d_final d) = false -> d_fwd d = []).
+  Record SafeInv (st : pstate) : Prop := {
+    si_derived : forall t m, In m (topic st t) -> derived t m;
+    si_log : Forall delivery_good (dlog st)
+  }.
+
+  Lemma safe_init : SafeInv (pinit srcs).
+  Proof.
+    constructor; simpl.
+    - intros [|t] m H; [now constructor|destruct H].
+    - constructor.
+  Qed.
+
+  Lemma safe_step st l st' : SafeInv st -> pstep k sc st l = Some st' -> SafeInv st'.
+  Proof.
+    intros [Hd Hl] H. destruct l as [s m].
+    apply pstep_inv in H as (Hs & rest & Hr & ->). cbv zeta.
+    destruct (remove_first_spec _ _ _ Hr) as (a & b & Ea & Eb).
+    assert (Hm : derived s m). { apply Hd. rewrite Ea. apply in_or_app. right. now left. }
+    constructor; cbn [topic dlog].
+    - intros t x. rewrite topics_after_at.
+      destruct (Nat.eqb t (S s)) eqn:E1.
+      + apply Nat.eqb_eq in E1. subst t. intros Hin. apply in_app_or in Hin as [Hin|Hin].
+        * now apply Hd.
+        * apply stage_fwd_incl in Hin. econstructor; eassumption.
+      + destruct (Nat.eqb t s && is_acked _) eqn:E2; [|apply Hd].
+        apply andb_true_iff in E2 as [E2 _]. apply Nat.eqb_eq in E2. subst t.
+        intros Hin. apply Hd. rewrite Ea. subst rest.
+        apply in_app_or in Hin as [Hin|Hin]; apply in_or_app; [now left|right; now right].
+    - apply Forall_app. split; [exact Hl|]. constructor; [|constructor].
+      unfold delivery_good. cbn [d_stage d_msg d_fault d_final d_call].
+      split; [exact Hs|split; [exact Hm|split; [apply stage_delivery_ok|split; [apply stage_settle|split; [reflexivity|]]]]].
+      cbn [d_fwd]. apply stage_fwd_nopub.
+  Qed.
+
+  Lemma safe_run ls : SafeInv (prun k sc (pinit srcs) ls).
+  Proof. apply prun_inv; [intros; eapply safe_step; eassumption|apply safe_init]. Qed.
+
+  (** ** never lost: every expected arrival is at the final topic or has a live ancestor *)
+  Definition covered (st : pstate) (y : M) : Prop :=
+    In y (topic st k)
+    \/ exists t m, t < k /\ In m (topic st t) /\ In y (desc (k - t) t m).
+
+  Definition CoverInv (st : pstate) : Prop :=
+    forall y, In y (expected_sink k srcs) -> covered st y.
+
+  Lemma cover_init : CoverInv (pinit srcs).
+  Proof.
+    intros y Hy. unfold Model.expected_sink in Hy. apply in_flat_map in Hy as (x & Hx & Hy).
+    destruct (Nat.eq_dec k 0) as [E|E].
+    - left. rewrite E in Hy |- *. simpl in *. destruct Hy as [<-|[]]. exact Hx.
+    - right. exists 0, x. split; [lia|]. split; [exact Hx|]. now rewrite Nat.sub_0_r.
+  Qed.
+
+  Lemma cover_step st l st' : CoverInv st -> pstep k sc st l = Some st' -> CoverInv st'.
+  Proof.
+    intros HC H y Hy. specialize (HC y Hy). destruct l as [s m].
+    apply pstep_inv in H as (Hs & rest & Hr & ->). cbv zeta.
+    set (f := sc s (calls st s)). set (w := stage_w f (hf s m)). set (fwd := stage_fwd f (hf s m)).
+    destruct (remove_first_spec _ _ _ Hr) as (a & b & Ea & Eb).
+    (* anything pending before stays pending, except m itself when it was acked *)
+    assert (Hkeep : forall t x, In x (topic st t) -> (t = s /\ is_acked w = true /\ x = m)
+                                 \/ In x (topics_after st s rest w fwd t)).
+    { intros t x Hin. rewrite topics_after_at. destruct (Nat.eqb t (S s)) eqn:E1.
+      - right. apply Nat.eqb_eq in E1. subst t. apply in_or_app. now left.
+      - destruct (Nat.eqb t s && is_acked w) eqn:E2; [|now right].
+        apply andb_true_iff in E2 as [E2 E3]. apply Nat.eqb_eq in E2. subst t.
+        rewrite Ea in Hin. apply in_app_or in Hin as [Hin|[Hin|Hin]].
+        + right. subst rest. apply in_or_app. now left.
+        + left. now repeat split.
+        + right. subst rest. apply in_or_app. now right. }
+    unfold covered. cbn [topic].
+    destruct HC as [HC|(t & x & Ht & Hx & Hyx)].
+    - left. destruct (Hkeep _ _ HC) as [(E & _)|Hin]; [lia|exact Hin].
+    - destruct (Hkeep _ _ Hx) as [(-> & Hack & ->)|Hin].
+      + (* m was given up: its outputs were all accepted by the next topic *)
+        assert (Efwd : fwd = hf s m) by (apply stage_acked_fwd; exact Hack).
+        replace (k - s) with (S (k - S s)) in Hyx by lia. simpl in Hyx.
+        apply in_flat_map in Hyx as (o & Ho & Hyo).
+        assert (Hin : In o (topics_after st s rest w fwd (S s))).
+        { rewrite topics_after_at, Nat.eqb_refl. apply in_or_app. right. now rewrite Efwd. }
+        destruct (Nat.eq_dec (S s) k) as [E|Hne].
+        * left. rewrite <- E. rewrite <- E, Nat.sub_diag in Hyo. destruct Hyo as [<-|[]]. exact Hin.
+        * right. exists (S s), o. split; [lia|]. split; assumption.
+      + right. exists t, x. split; [exact Ht|]. split; assumption.
+  Qed.
+
+  Lemma cover_run ls : CoverInv (prun k sc (pinit srcs) ls).
+  Proof. apply prun_inv; [intros; eapply cover_step; eassumption|apply cover_init]. Qed.
+
+  Definition quiescent (st : pstate) : Prop := forall t, t < k -> topic st t = [].
+
+  Lemma quiescentb_spec st : quiescentb k st = true <-> quiescent st.
+  Proof.
+    unfold quiescentb, quiescent. rewrite forallb_forall. split.
+    - intros H t Ht. specialize (H t ltac:(apply in_seq; lia)). now destruct (topic st t).
+    - intros H t Ht. apply in_seq in Ht. rewrite H by lia. reflexivity.
+  Qed.
+
+  (** stuck = quiescent: while anything is pending a step is enabled *)
+  Lemma not_quiescent_enabled st : quiescentb k st = false -> exists l, pstep k sc st l <> None.
+  Proof.
+    unfold quiescentb. intros H.
+    assert (Hex : exists t, In t (seq 0 k) /\ topic st t <> []).
+    { induction (seq 0 k) as [|t l IH]; simpl in H; [discriminate|].
+      destruct (topic st t) eqn:E.
+      - destruct (IH H) as (t' & Ht' & Hn). exists t'. split; [now right|exact Hn].
+      - exists t. split; [now left|]. rewrite E. discriminate. }
+    destruct Hex as (t & Ht & Hn). apply in_seq in Ht.
+    destruct (topic st t) as [|m l] eqn:E; [congruence|].
+    exists (t, m). apply pstep_enabled; [lia|]. rewrite E. now left.
+  Qed.
+
+  Lemma quiescent_stuck st l : quiescent st -> pstep k sc st l = None.
+  Proof.
+    intros Hq. destruct l as [s m]. unfold Model.pstep. destruct (Nat.ltb s k) eqn:E; [|reflexivity].
+    apply Nat.ltb_lt in E. now rewrite (Hq s E).
+  Qed.
+
+  Lemma cover_quiescent st : CoverInv st -> quiescent st ->
+    forall y, In y (expected_sink k srcs) -> In y (topic st k).
+  Proof.
+    intros HC Hq y Hy. destruct (HC y Hy) as [H|(t & m & Ht & Hm & _)]; [exact H|].
+    rewrite (Hq t Ht) in Hm. destruct Hm.
+  Qed.
+
+  (** ** duplicates: exact accounting *)
+  Definition Dsz (t : nat) (m : M) : nat := length (desc (k - t) t m).
+
+  Definition DupInv (st : pstate) : Prop :=
+    pot Dsz (topic st) = length (expected_sink k srcs) + dup_budget hf k (dlog st).
+
+  Lemma pot_init G : pot G (topic (pinit srcs)) = list_sum (map (G 0) srcs).
+  Proof.
+    unfold pot. cbn [seq map list_sum fold_right pinit topic].
+    rewrite (sum_same (fun _ => 0)).
+    - assert (E0 : list_sum (map (fun _ : nat => 0) (seq 1 k)) = 0)
+        by (clear; induction (seq 1 k); simpl; lia).
+      rewrite E0. unfold list_sum. lia.
+    - intros t Ht. apply in_seq in Ht. destruct t; [lia|reflexivity].
+  Qed.
+
+  Lemma dup_init : DupInv (pinit srcs).
+  Proof.
+    unfold DupInv. rewrite pot_init. unfold Model.expected_sink, dup_budget. simpl.
+    rewrite length_flat_map, Nat.add_0_r. unfold Dsz. now rewrite Nat.sub_0_r.
+  Qed.
+
+  Lemma dup_step st l st' : DupInv st -> pstep k sc st l = Some st' -> DupInv st'.
+  Proof.
+    unfold DupInv. intros HD H. destruct l as [s m].
+    pose proof (pot_step Dsz _ _ _ _ H) as HP. cbv zeta in HP.
+    apply pstep_inv in H as (Hs & rest & Hr & ->). cbv zeta in *. cbn [topic dlog] in *.
+    set (f := sc s (calls st s)) in *. set (w := stage_w f (hf s m)) in *.
+    set (fwd := stage_fwd f (hf s m)) in *.
+    unfold dup_budget in *. rewrite map_app, list_sum_app. cbn [map list_sum].
+    unfold dup_of at 2. cbn [d_final d_fwd d_stage].
+    destruct (is_acked w) eqn:Ea.
+    - assert (Efwd : fwd = hf s m) by (apply stage_acked_fwd; exact Ea).
+      assert (E : Dsz s m = list_sum (map (Dsz (S s)) (hf s m))).
+      { unfold Dsz. replace (k - s) with (S (k - S s)) by lia. simpl. apply length_flat_map. }
+      rewrite Efwd in HP |- *. unfold list_sum at 2. simpl fold_right. lia.
+    - unfold list_sum at 2. simpl fold_right. unfold Dsz in *. lia.
+  Qed.
+
+  Lemma dup_run ls : DupInv (prun k sc (pinit srcs) ls).
+  Proof. apply prun_inv; [intros; eapply dup_step; eassumption|apply dup_init]. Qed.
+
+  Lemma pot_quiescent st : quiescent st -> pot Dsz (topic st) = length (topic st k).
+  Proof.
+    intros Hq. unfold pot. rewrite seq_S, map_app, list_sum_app. cbn [map list_sum plus].
+    rewrite (sum_same (fun _ => 0)).
+    - assert (E0 : list_sum (map (fun _ : nat => 0) (seq 0 k)) = 0)
+        by (clear; induction (seq 0 k); simpl; lia).
+      rewrite E0. simpl. rewrite Nat.add_0_r.
+      unfold Dsz. rewrite Nat.sub_diag. simpl.
+      clear. induction (topic st k); simpl; [reflexivity|]. now rewrite IHl.
+    - intros t Ht. apply in_seq in Ht. rewrite Hq by lia. reflexivity.
+  Qed.
 End Proofs.
